@@ -63,12 +63,13 @@ fn decode_all(buf: &[u8], ctxs: &[Option<stun_rs::DecoderContext>]) -> Option<St
 fn client(cfg: u8) -> StunClient {
     let mut b = StunClienteBuilder::new(if cfg & 4 != 0 { TransportReliability::Reliable(Duration::from_secs(5)) } else { TransportReliability::Unreliable(RttConfig::default()) });
     if cfg & 1 != 0 { b = b.with_mechanism("user", "pw", CredentialMechanism::ShortTerm(None)); }
+    if cfg & 8 != 0 { b = b.with_mechanism("user", "pw", CredentialMechanism::LongTerm); }
     if cfg & 2 != 0 { b = b.with_fingerprint(); }
     b.build().expect("build")
 }
 
 fn through_client(buf_of: &dyn Fn(&[u8; 12]) -> Vec<u8>, what: &str) -> Option<String> {
-    for cfg in [0u8, 1, 2, 5] {
+    for cfg in [0u8, 1, 2, 5, 8, 12] {
         let mut c = client(cfg);
         let t0 = Instant::now();
         let id: TransactionId = match c.send_request(BINDING, StunAttributes::default(), vec![0; 512], t0) { Ok(id) => id, Err(_) => continue };
@@ -104,7 +105,37 @@ fn through_reassembler(buf: &[u8]) -> Option<String> {
     None
 }
 
+// a logger that formats every record: log macros evaluate their arguments only when a logger admits the level, so a panic in an
+// argument expression is invisible without one
+struct EvalLogger;
+impl log::Log for EvalLogger {
+    fn enabled(&self, _: &log::Metadata) -> bool { true }
+    fn log(&self, record: &log::Record) { let _ = format!("{}", record.args()); }
+    fn flush(&self) {}
+}
+static LOGGER: EvalLogger = EvalLogger;
+
+// well-formed messages a server may send for an outstanding request (the client must digest them whatever its state)
+fn server_messages(id: &[u8; 12]) -> Vec<(String, Vec<u8>)> {
+    let mut v = Vec::new();
+    for code in [300u16, 400, 401, 420, 438, 500] {
+        let mut ec = vec![0u8, 0, (code / 100) as u8, (code % 100) as u8]; ec.extend_from_slice(b"reason");
+        for nonce in [&b"n"[..], b"obMatJos2AAAA", b"obMatJos2AAA", b"obMatJos2QAAAcookie", b"plain-nonce"] {
+            for with_realm in [false, true] {
+                let mut tlvs: Vec<(u16, Vec<u8>)> = vec![(0x0009, ec.clone()), (0x0015, nonce.to_vec())];
+                if with_realm { tlvs.push((0x0014, b"realm".to_vec())); }
+                v.push((format!("error response {} with NONCE {:?}{}", code, String::from_utf8_lossy(nonce), if with_realm { " and REALM" } else { "" }), message(0x0110, id, &tlvs)));
+            }
+        }
+    }
+    v.push(("success response without attributes".into(), message(0x0100, id, &[])));
+    v.push(("indication with the id of the request".into(), message(0x0010, id, &[(0x8022, b"x".to_vec())])));
+    v
+}
+
 fn main() {
+    let _ = log::set_logger(&LOGGER);
+    log::set_max_level(log::LevelFilter::Trace);
     let ctxs = contexts();
     let tid = [7u8; 12];
     let mut n = 0usize;
@@ -151,6 +182,16 @@ fn main() {
             if let Some(w) = through_reassembler(&m) { bad.push(format!("{} ({})", w, what)); break; }
         }
     }
-    if bad.is_empty() { println!("ok: {} crafted buffers, no panic in decoder (17 option sets), client (4 configurations) or reassembler", n); }
+    // (d) well-formed server messages for the outstanding request, for every client configuration (long-term included)
+    if bad.is_empty() {
+        let probe_id = [1u8; 12];
+        let count = server_messages(&probe_id).len();
+        for k in 0..count {
+            n += 1;
+            let what = server_messages(&probe_id)[k].0.clone();
+            if let Some(w) = through_client(&|id| server_messages(id)[k].1.clone(), &what) { bad.push(w); break; }
+        }
+    }
+    if bad.is_empty() { println!("ok: {} crafted buffers, no panic in decoder (17 option sets), client (6 configurations, log arguments evaluated) or reassembler", n); }
     else { for w in bad { println!("WITNESS: {}", w); } std::process::exit(1); }
 }
